@@ -5,9 +5,10 @@
 \* Switches:
 \*   NoRepublish      -- seeded change C23: a waiter that takes over as combiner does not republish its record
 \*   ExitRemoves      -- threads exit (tls_cleanup marks the record 'removed') while others still combine
-\*   FreeOnlyUnlinked -- intended behaviour for finding 7.9: compact_list frees only records it has unlinked in this call
+\*   FreeLinkedToo    -- the defect repaired by the fix commit: compact_list's second loop frees every 'removed' record, also one that
+\*                       turned 'removed' after the first loop had passed it and is still linked (is_published() test missing)
 EXTENDS Naturals, Sequences, FiniteSets, TLC
-CONSTANTS Threads, Ops, PassCount, CF, NoRepublish, ExitRemoves, FreeOnlyUnlinked
+CONSTANTS Threads, Ops, PassCount, CF, NoRepublish, ExitRemoves, FreeLinkedToo
 NIL == 99
 HD == 0
 (* --algorithm FCKernel {
@@ -17,6 +18,9 @@ variables
   allocated = {}, freed = {}, lock = NIL, count = 0,
   executed = [r \in Threads |-> 0], uaf = FALSE;
 
+define {
+  Reach == LET R[k \in 0..(Cardinality(Threads) + 1)] == IF k = 0 THEN {next[HD]} \ {NIL} ELSE R[k - 1] \cup ({ next[r] : r \in R[k - 1] } \ {NIL}) IN R[Cardinality(Threads) + 1]
+}
 macro Touch(r) { uaf := uaf \/ (r \in freed); }
 
 procedure publish()
@@ -56,7 +60,7 @@ CL5:     if (next[prev] = p) { next[prev] := nx; unlinked := unlinked \cup {p}; 
 CL6: todo := allocated;
 CL7: while (todo # {}) {
        with (r \in todo) {
-         if (state[r] = "removed" /\ (~FreeOnlyUnlinked \/ r \in unlinked)) { allocated := allocated \ {r}; freed := freed \cup {r}; };
+         if (state[r] = "removed" /\ (FreeLinkedToo \/ r \notin Reach)) { allocated := allocated \ {r}; freed := freed \cup {r}; };      \* is_published( r )
          todo := todo \ {r};
        };
      };
@@ -119,8 +123,13 @@ T9: if (ExitRemoves) { state[self] := "removed"; };              \* thread exit:
 \* BEGIN TRANSLATION
 CONSTANT defaultInitValue
 VARIABLES pc, state, age, req, next, allocated, freed, lock, count, executed, 
-          uaf, stack, pp, cage, prev, p, nx, todo, unlinked, cur, pass, 
-          useful, empty, q, done, n, first, combiner
+          uaf, stack
+
+(* define statement *)
+Reach == LET R[k \in 0..(Cardinality(Threads) + 1)] == IF k = 0 THEN {next[HD]} \ {NIL} ELSE R[k - 1] \cup ({ next[r] : r \in R[k - 1] } \ {NIL}) IN R[Cardinality(Threads) + 1]
+
+VARIABLES pp, cage, prev, p, nx, todo, unlinked, cur, pass, useful, empty, q, 
+          done, n, first, combiner
 
 vars == << pc, state, age, req, next, allocated, freed, lock, count, executed, 
            uaf, stack, pp, cage, prev, p, nx, todo, unlinked, cur, pass, 
@@ -317,7 +326,7 @@ CL6(self) == /\ pc[self] = "CL6"
 CL7(self) == /\ pc[self] = "CL7"
              /\ IF todo[self] # {}
                    THEN /\ \E r \in todo[self]:
-                             /\ IF state[r] = "removed" /\ (~FreeOnlyUnlinked \/ r \in unlinked[self])
+                             /\ IF state[r] = "removed" /\ (FreeLinkedToo \/ r \notin Reach)
                                    THEN /\ allocated' = allocated \ {r}
                                         /\ freed' = (freed \cup {r})
                                    ELSE /\ TRUE
@@ -586,7 +595,7 @@ T3(self) == /\ pc[self] = "T3"
 
 T4(self) == /\ pc[self] = "T4"
             /\ Assert(req[self] = "response", 
-                      "Failure of assertion at line 110, column 9.")
+                      "Failure of assertion at line 114, column 9.")
             /\ lock' = NIL
             /\ combiner' = [combiner EXCEPT ![self] = FALSE]
             /\ pc' = [pc EXCEPT ![self] = "T5"]
@@ -597,7 +606,7 @@ T4(self) == /\ pc[self] = "T4"
 
 T5(self) == /\ pc[self] = "T5"
             /\ Assert(req[self] = "response" /\ executed[self] = 1, 
-                      "Failure of assertion at line 113, column 7.")
+                      "Failure of assertion at line 117, column 7.")
             /\ executed' = [executed EXCEPT ![self] = 0]
             /\ req' = [req EXCEPT ![self] = "empty"]
             /\ pc' = [pc EXCEPT ![self] = "T0"]
@@ -637,7 +646,6 @@ Termination == <>(\A self \in ProcSet: pc[self] = "Done")
 \* END TRANSLATION
 NoUseAfterFree == ~uaf
 \* a freed record is never reachable from the publication list
-Reach == LET R[k \in 0..(Cardinality(Threads) + 1)] == IF k = 0 THEN {next[HD]} \ {NIL} ELSE R[k - 1] \cup ({ next[r] : r \in R[k - 1] } \ {NIL}) IN R[Cardinality(Threads) + 1]
 NoFreedLinked == Reach \cap freed = {}
 AtMostOnce == \A t \in Threads : executed[t] <= 1
 MutexOK == lock \in Threads \cup {NIL}
